@@ -247,6 +247,10 @@ def _symbols_in(v, depth=0):
 
     C = alg.ctx()
     out = set()
+    if type(v) is not alg.Value:
+        for t in alg.simple_parts(v):
+            out |= _symbols_in(t, depth)
+        return out
     polys = [v.n] + [C.factors[f] for f in v.df]
     for p in polys:
         for m in p:
